@@ -6,7 +6,7 @@ for d in sorted(glob.glob("/verif/seeded/C*")):
     t = ""
     if os.path.exists(d + "/tests.txt"):
         lines = open(d + "/tests.txt").read().strip().splitlines()
-        t = next((l for l in reversed(lines) if l.startswith("total failed")), "")
+        t = next((l for l in reversed(lines) if l.startswith("total failed:")), "")
     rows.append((m["property"], m["caught_by"], m.get("strengthening", ""), t))
 with open("/verif/seeded/SUMMARY.md", "w") as f:
     f.write("# Independently seeded changes: one per property (see <ID>/meta.json, patch.diff, demo.py, tests.txt)\n\n")
